@@ -528,7 +528,27 @@ pub fn run_case(tape: &mut Tape, _tier: Tier, _p: &CaseParams) -> CaseOutcome {
       return out;
     }
   }
-  for u in &urls {
+  // urls that merely look like a package's directory (other scheme, port,
+  // host suffix, path prefix) belong to no package
+  let mut probes: BTreeSet<String> = urls.clone();
+  for nv in &nvs {
+    let tail = format!("{}/{}/mod.ts", nv.name, nv.version);
+    for p in [
+      format!("http://jsr.io/{}", tail),
+      format!("https://jsr.io:8443/{}", tail),
+      format!("https://jsr.io.evil.test/{}", tail),
+      format!("https://a.test/{}", tail),
+      format!("https://jsr.io/x/{}", tail),
+      format!("https://user@jsr.io/{}", tail),
+      format!("{}{}/{}", REGISTRY, nv.name, nv.version),
+      format!("{}{}/{}-x/mod.ts", REGISTRY, nv.name, nv.version),
+      format!("{}{}x/{}/mod.ts", REGISTRY, nv.name, nv.version),
+    ] {
+      probes.insert(p);
+    }
+  }
+  out.count("url_attribution_probes", probes.len() as u64);
+  for u in &probes {
     let Ok(url) = ModuleSpecifier::parse(u) else {
       continue;
     };
@@ -541,7 +561,7 @@ pub fn run_case(tape: &mut Tape, _tier: Tier, _p: &CaseParams) -> CaseOutcome {
       (Some(g), Some(e)) => g == e,
       (None, None) => true,
       // a url under a version directory the registry does not list still
-      // parses to that name@version
+      // parses to that name@version - but only under the registry url
       (Some(g), None) => u.starts_with(&format!(
         "{}{}/{}/",
         REGISTRY, g.name, g.version
